@@ -67,6 +67,28 @@ Theorem mgmt_keeps_unique_keys : forall rib_to_fib face_cleanup allow ds_fits st
 Proof. exact (fun rtf fc al df st vs c st' vs' r X W H => run_keeps_tables_wf rtf fc al df st vs c X W st' vs' r H). Qed.
 Print Assumptions mgmt_keeps_unique_keys.
 
+(* ---- the FIB after a RIB change. [spec_fib_after_rib] (evaluated by the runner on the implementation after every accepted
+   rib/register, rib/unregister and face removal): every prefix with routes in scope holds exactly the flattened next hops of
+   the new RIB (own routes + child-inherit routes up to the nearest capture, minimum cost per face), prefixes without routes
+   keep or lose theirs, prefixes out of scope are untouched. The reference synchronisation [rib_sync] - which the runner uses
+   as the model's RIB->FIB function - meets it. ---- *)
+Theorem rib_change_reflected_in_fib : forall rib' scope pre,
+  NoDup (map fst rib') -> NoDup (map fst pre) -> spec_fib_after_rib scope rib' pre (rib_sync rib' scope pre) = true.
+Proof. exact rib_sync_meets_spec. Qed.
+Print Assumptions rib_change_reflected_in_fib.
+
+(* an in-place update of a route (same prefix, face, origin; new cost, flags 0) changes the next hop's cost at that prefix and
+   withdraws the inherited next hop from the sub-prefix *)
+Example rib_update_example :
+  let a := [gcomp [97]] in let ab := [gcomp [97]; gcomp [98]] in
+  let rib1 := rib_add (rib_add [] a (Build_route 400 0 10 1 None)) ab (Build_route 401 0 0 1 None) in
+  let fib1 := rib_sync rib1 (Some []) [] in
+  let rib2 := rib_add rib1 a (Build_route 400 0 3 0 None) in
+  let fib2 := rib_sync rib2 (Some a) fib1 in
+  fib_hops fib1 a = [(400, 10)] /\ fib_hops fib1 ab = [(401, 0); (400, 10)] /\
+  fib_hops fib2 a = [(400, 3)] /\ fib_hops fib2 ab = [(401, 0)].
+Proof. vm_compute. repeat split. Qed.
+
 (* ---- datasets_exact: every status dataset (single segment) lists exactly the table it reports ---- *)
 Theorem datasets_exact : forall rib_to_fib face_cleanup allow ds_fits st vs c st' vs' r,
   run rib_to_fib face_cleanup allow ds_fits st vs c = Ok st' vs' r -> spec_dataset c r st' = true.
